@@ -1615,10 +1615,32 @@ func runB10(p *an.Prog, r *an.Result) {
 		return
 	}
 	name := an.FuncName(fn)
+	// the iterator: the parameter whose interface type has Len and Index
+	var iterPar ssa.Value
+	for _, par := range fn.Params {
+		if it, ok := par.Type().Underlying().(*types.Interface); ok {
+			hasLen, hasIdx := false, false
+			for k := 0; k < it.NumMethods(); k++ {
+				switch it.Method(k).Name() {
+				case "Len":
+					hasLen = true
+				case "Index":
+					hasIdx = true
+				}
+			}
+			if hasLen && hasIdx {
+				iterPar = par
+			}
+		}
+	}
+	if iterPar == nil {
+		r.Bad(name, "iterator parameter not found", an.FuncPos(fn), "the loop function must be handed the iterator (an interface with Len and Index)")
+		return
+	}
 	// l = iter.Len(); i = phi(0, i+1); loop condition i < l
 	var l *ssa.Call
 	an.EachInstr(fn, func(in ssa.Instruction) {
-		if c, ok := in.(*ssa.Call); ok && c.Call.IsInvoke() && c.Call.Method.Name() == "Len" && c.Call.Value == ssa.Value(fn.Params[1]) {
+		if c, ok := in.(*ssa.Call); ok && c.Call.IsInvoke() && c.Call.Method.Name() == "Len" && c.Call.Value == iterPar {
 			l = c
 		}
 	})
@@ -1670,7 +1692,7 @@ func runB10(p *an.Prog, r *an.Result) {
 	// the element bound to the loop variable is iter.Index(i)
 	okIdx := false
 	an.EachInstr(fn, func(in ssa.Instruction) {
-		if c, ok := in.(*ssa.Call); ok && c.Call.IsInvoke() && c.Call.Method.Name() == "Index" && c.Call.Value == ssa.Value(fn.Params[1]) && c.Call.Args[0] == ssa.Value(i) {
+		if c, ok := in.(*ssa.Call); ok && c.Call.IsInvoke() && c.Call.Method.Name() == "Index" && c.Call.Value == iterPar && c.Call.Args[0] == ssa.Value(i) {
 			okIdx = true
 		}
 	})
@@ -1935,15 +1957,16 @@ func runB11(p *an.Prog, r *an.Result) {
 			return false, "must return max(0, inner.Len() - n)"
 		}
 		c := an.CallOf(res)
-		if c == nil {
+		var cargs []ssa.Value
+		if c != nil && (an.CallName(c) == "tags.intMax" || an.CallName(c) == "builtin.max") {
+			cargs = c.Args
+		} else if kind, x, y, ok := inlineMinMax(fn); ok && kind == "max" {
+			cargs = []ssa.Value{x, y}
+		} else {
 			return false, "must return max(0, inner.Len() - n)"
 		}
-		cn := an.CallName(c)
-		if cn != "tags.intMax" && cn != "builtin.max" {
-			return false, "must clamp with max"
-		}
 		zero, diff := false, false
-		for _, a := range c.Args {
+		for _, a := range cargs {
 			if k, ok := an.ConstInt(a); ok && k == 0 {
 				zero = true
 			} else if linOf(a, 0).is(0, map[ssa.Value]int64{ls[0]: 1, n: -1}) {
@@ -1967,15 +1990,16 @@ func runB11(p *an.Prog, r *an.Result) {
 			return false, "must return min(n, inner.Len())"
 		}
 		c := an.CallOf(res)
-		if c == nil {
+		var cargs []ssa.Value
+		if c != nil && (an.CallName(c) == "tags.intMin" || an.CallName(c) == "builtin.min") {
+			cargs = c.Args
+		} else if kind, x, y, ok := inlineMinMax(fn); ok && kind == "min" {
+			cargs = []ssa.Value{x, y}
+		} else {
 			return false, "must return min(n, inner.Len())"
 		}
-		cn := an.CallName(c)
-		if cn != "tags.intMin" && cn != "builtin.min" {
-			return false, "must clamp with min"
-		}
 		hasN, hasL := false, false
-		for _, a := range c.Args {
+		for _, a := range cargs {
 			if eqVal(a, n) {
 				hasN = true
 			}
@@ -2360,4 +2384,78 @@ func boundReceiverField(p *an.Prog, o ssa.Value) []ssa.Value {
 		})
 	}
 	return out
+}
+
+// inlineMinMax: the function returns the lesser (or the greater) of two values, written out as one
+// comparison with a return on either side (or one phi): kind is "min" or "max".
+func inlineMinMax(fn *ssa.Function) (string, ssa.Value, ssa.Value, bool) {
+	for _, b := range fn.Blocks {
+		ifi, ok := b.Instrs[len(b.Instrs)-1].(*ssa.If)
+		if !ok {
+			continue
+		}
+		cmp, ok := ifi.Cond.(*ssa.BinOp)
+		if !ok {
+			continue
+		}
+		var less bool // the true edge is taken when X is the smaller
+		switch cmp.Op {
+		case token.LSS, token.LEQ:
+			less = true
+		case token.GTR, token.GEQ:
+			less = false
+		default:
+			continue
+		}
+		valueOn := func(succ *ssa.BasicBlock) ssa.Value {
+			pure := true
+			for _, in := range succ.Instrs[:len(succ.Instrs)-1] {
+				switch in.(type) {
+				case *ssa.FieldAddr, *ssa.UnOp, *ssa.Field, *ssa.Phi, *ssa.DebugRef:
+				default:
+					pure = false
+				}
+			}
+			if ret, ok := succ.Instrs[len(succ.Instrs)-1].(*ssa.Return); ok && pure {
+				if res := resultsOf(ret); len(res) == 1 {
+					if ph, isPhi := res[0].(*ssa.Phi); isPhi && ph.Block() == succ {
+						for i, pb := range succ.Preds {
+							if pb == b {
+								return ph.Edges[i]
+							}
+						}
+					}
+					return res[0]
+				}
+			}
+			return nil
+		}
+		vt, vf := valueOn(b.Succs[0]), valueOn(b.Succs[1])
+		if vt == nil || vf == nil {
+			continue
+		}
+		same := func(u, w ssa.Value) bool {
+			if u == w || eqVal(u, w) {
+				return true
+			}
+			cu, ok1 := an.ConstInt(u)
+			cw, ok2 := an.ConstInt(w)
+			return ok1 && ok2 && cu == cw
+		}
+		x, y := cmp.X, cmp.Y
+		switch {
+		case same(vt, x) && same(vf, y):
+			// returns X when the comparison holds
+			if less {
+				return "min", x, y, true
+			}
+			return "max", x, y, true
+		case same(vt, y) && same(vf, x):
+			if less {
+				return "max", x, y, true
+			}
+			return "min", x, y, true
+		}
+	}
+	return "", nil, nil, false
 }
